@@ -80,8 +80,15 @@ def I(v):
     return {"k": "I", "v": v}
 
 
-def F(q):  # q = 4 * value
-    return {"k": "F", "v": q}
+FSCALE = 1 << 24  # float64 cells carry value * 2^24 (exact for the values used; |value| < 64)
+
+
+def F(q):  # q = 4 * value (quarters)
+    return {"k": "F", "v": q * (FSCALE // 4)}
+
+
+def FE(units):  # units = value * 2^24: floats that differ only far below the 6th decimal
+    return {"k": "F", "v": units}
 
 
 def X(s):
@@ -124,6 +131,9 @@ TRIPLES = [  # (s, p, o)
     (2, 15, I(-5)),  # 29 /u<b> s@[i6] -5
     (2, 13, F(-6)),  # 30 /u<b> s@[i3] -1.5
     (2, 4, F(-6)),   # 31 /u<b> q@[] -1.5
+    (1, 4, FE(FSCALE + 1)),  # 32 /u<a> q@[] 1.0000000596...  (1 + 2^-24)
+    (2, 4, FE(FSCALE + 2)),  # 33 /u<b> q@[] 1.0000001192...  (1 + 2^-23): equal to 32 up to 6 decimals
+    (4, 4, FE(FSCALE + 1)),  # 34 /u<c> q@[] 1 + 2^-24 again (same value as 32)
 ]
 
 
@@ -149,7 +159,7 @@ def time_text(n, alt=False):
 
 
 def fmt_float(q):
-    v = q / 4.0
+    v = q / float(FSCALE)
     s = repr(v)
     if s.endswith(".0"):
         s = s[:-2]
